@@ -884,7 +884,34 @@ class DB:
                 if isinstance(n, ast.Call):
                     for g in self.resolve_call(n, f, with_subclasses=True, fallback=True):
                         out.setdefault(g.qualname, []).append((f, n))
+            for n, gs in self._method_values(f):
+                for g in gs:
+                    out.setdefault(g.qualname, []).append((f, n))
         self._callers = out
+        return out
+
+    def _method_values(self, f: FuncInfo) -> List[Tuple[ast.Call, List[FuncInfo]]]:
+        """Bound methods of the own class used as values (``self.__build_x`` put into a table,
+        a dict of translators, a list of section builders): wherever the value is called later,
+        it may be called; a synthetic argument-less call at the reference site stands for it."""
+        out: List[Tuple[ast.Call, List[FuncInfo]]] = []
+        if f.cls is None:
+            return out
+        for n in walk_no_nested(f.node):
+            if isinstance(n, ast.Attribute) and isinstance(n.ctx, ast.Load) and isinstance(n.value, ast.Name) \
+                    and n.value.id in ("self", "cls", f.cls.name):
+                p = getattr(n, "parent", None)
+                if isinstance(p, ast.Call) and p.func is n:
+                    continue
+                g = f.cls.lookup(n.attr)
+                if g is None or g is f:
+                    continue
+                call = ast.Call(func=n, args=[], keywords=[])
+                ast.copy_location(call, n)
+                call.parent = p            # type: ignore[attr-defined]
+                call._mod = getattr(n, "_mod", None)   # type: ignore[attr-defined]
+                call.synthetic = True      # type: ignore[attr-defined]
+                out.append((call, [g]))
         return out
 
     def callees(self, f: FuncInfo) -> List[Tuple[ast.Call, List[FuncInfo]]]:
@@ -894,6 +921,7 @@ class DB:
                 gs = self.resolve_call(n, f, with_subclasses=True, fallback=True)
                 if gs:
                     out.append((n, gs))
+        out.extend(self._method_values(f))
         return out
 
     def reachable(self, roots: Iterable[FuncInfo]) -> Dict[str, FuncInfo]:
